@@ -744,7 +744,7 @@ class DeliverSm(SubmitSm):
 
     def parse_receipt(self) -> Dict[str, Any]:
         '''
-        Parses short_message text and returns a dictionary with receipt data.
+        Parses receipt text and returns a dictionary with receipt data.
         '''
         if not self.is_receipt():
             return {}
@@ -752,17 +752,20 @@ class DeliverSm(SubmitSm):
         if self._parsed_receipt is not None:
             return self._parsed_receipt
 
+        # The receipt text may also be carried in the message_payload parameter
+        receipt_text: str = self.short_message or self.message_payload
+
         def get_receipt_param() -> Tuple[Optional[str], Optional[str]]:
             nonlocal index
-            str_end: int = self.short_message.find(':', index)
+            str_end: int = receipt_text.find(':', index)
             if str_end == -1:
                 return None, None
-            param: str = self.short_message[index:str_end].lower()
+            param: str = receipt_text[index:str_end].lower()
             index = str_end + 1
-            str_end = self.short_message.find(' ', index)
+            str_end = receipt_text.find(' ', index)
             if str_end == -1 or param == 'text':  # Text must be last
-                str_end = len(self.short_message)
-            value: str = self.short_message[index:str_end]
+                str_end = len(receipt_text)
+            value: str = receipt_text[index:str_end]
             index = str_end + 1
             return param, value
 
